@@ -270,3 +270,39 @@ Proof.
   destruct (probes_eof op); [|reflexivity].
   destruct (osrc_read sr total (0 + reach sr 0 (sumN (demands op))) 1); reflexivity.
 Qed.
+
+(* ------------------------------------------------------------------ sources that END early *)
+Lemma oread_exact_short sr total : i_fail sr = None -> forall fuel pos want,
+  (N.to_nat want <= fuel)%nat -> pos <= total -> total < pos + want ->
+  fst (oread_exact fuel sr total pos want) = Err E_UNEXPECTED_EOF.
+Proof.
+  intros Hn. induction fuel as [|fuel IH]; intros pos want Hf Hp Ht; [lia|].
+  cbn [oread_exact]. destruct (want =? 0) eqn:E0; [lia|].
+  unfold osrc_read. rewrite Hn.
+  set (k0 := N.min want (total - pos)).
+  set (k1 := if i_chunk sr =? 0 then k0 else N.min k0 (i_chunk sr)).
+  assert (k1 <= k0 /\ (0 < k0 -> 0 < k1)) as (Hk1 & Hk1p) by (unfold k1; destruct (i_chunk sr =? 0) eqn:E; lia).
+  destruct (k1 =? 0) eqn:E1; [reflexivity|].
+  apply IH; unfold k0 in *; lia.
+Qed.
+
+Lemma run_demands_short sr total : i_fail sr = None -> forall ds pos,
+  pos <= total -> total < pos + sumN ds ->
+  fst (run_demands sr total pos ds) = Err E_UNEXPECTED_EOF.
+Proof.
+  intros Hn. induction ds as [|d ds IH]; intros pos Hp Ht; cbn [run_demands sumN fold_right] in *; [lia|].
+  fold (sumN ds) in *.
+  destruct (pos + d <=? total) eqn:E.
+  - rewrite oread_exact_spec by (lia || (unfold src_ge; rewrite Hn; exact I)).
+    unfold reach. rewrite Hn, N.eqb_refl. apply IH; lia.
+  - pose proof (oread_exact_short sr total Hn (N.to_nat d) pos d (le_n _) Hp) as H.
+    destruct (oread_exact (N.to_nat d) sr total pos d) as [r p]. cbn [fst] in H. rewrite H by lia. reflexivity.
+Qed.
+
+Lemma read_reports_early_end sr total op : i_fail sr = None -> total < sumN (demands op) ->
+  fst (run_rop sr total op) = Err E_UNEXPECTED_EOF.
+Proof.
+  intros Hn Ht. unfold run_rop.
+  pose proof (run_demands_short sr total Hn (demands op) 0) as H.
+  destruct (run_demands sr total 0 (demands op)) as [r p]. cbn [fst] in H. rewrite H by lia. reflexivity.
+Qed.
